@@ -378,8 +378,8 @@ def gen_cases(tier, seed, i, n):
                     k += 1
     # wide grouping factors: more cells than a signed / unsigned byte counts (12 x 12 = 144, 16 x 16 = 256)
     for e in ("1", "x", "0 + x", "0 + s"):
-        for g in ("g:g2", "g/g2", "g2:C(k)"):
-            for dims in ((12, 12), (16, 16)):
+        for g in ("g:g2", "g/g2", "g2:C(k)", "g"):
+            for dims in ((12, 12), (16, 16)) + (((130, 2),) if e in ("1", "0 + x") and g != "g2:C(k)" else ()):
                 if k % n == i:
                     yield k, {"group": [{"effect": e, "grouping": g}], "crossed": True, "wide": list(dims)}
                 k += 1
